@@ -39,6 +39,8 @@ func runC14(c *Ctx, r *Report) {
 	}
 	// recursive read acquisition of one log's lock: a writer queued between the two RLocks blocks both forever
 	r.Doc("R-C14.3", "no recursive acquisition of one IPFSLog lock (a merge from a log that is merely being appended to must terminate)")
+	r.Doc("R-C14.4", "the head map a merge read from the source is an immutable snapshot: Merge builds a new map and never writes into its receiver or argument")
+	pureMerge(c, r, "R-C14.4")
 	nrec := 0
 	for _, e := range le.Edges {
 		if e.HeldClass == "IPFSLog.lock" && e.AcqClass == "IPFSLog.lock" && e.HeldBase == e.AcqBase {
